@@ -98,6 +98,8 @@ func (r *x1c12) Exec(op []string) string {
 		default:
 			r.st.Note(op[0] + "-" + op[1] + "-proper")
 		}
+		lbNote(r.st, op[0]+"-input", len(vs))
+		lbNote(r.st, op[0]+"-result", len(res))
 		return fmt.Sprintf("res=%s mod=%s", fmtInts(res), fmtBool(!slices.Equal(vs, r.lhs)))
 	}
 	return r.c11.Exec(op)
@@ -152,6 +154,7 @@ func genX1Compare(g *G) {
 		}
 		g.Case(append(ops, calls...))
 	}
+	genC12LisLarge(g, calls, []int{1000})
 }
 
 func init() {
